@@ -131,7 +131,8 @@ package smtp
 //@ func smtp.Client.Data () (w, err)
 //@   requires[C03,C04:in-step] c != nil && quiet(c.Text) && (live(c.Text) ==> c.Text.txn == 2 && c.Text.acc >= 1 && c.Text.rej == 0)
 //@   ensures[C03,C04:step] c.Text != nil && c.Text.greeted && (old(c.Text.ioerr) ==> c.Text.ioerr) && (!c.Text.ioerr ==> c.Text.eodacks == old(c.Text.eodacks) && c.Text.pending == 0)
-//@   ensures[C03,C04:open] err == nil ==> w != nil && istype(w, "*smtp.dataCloser") && as(w, "*smtp.dataCloser").c == c && (!c.Text.ioerr ==> c.Text.indata && c.Text.txn == 3)
+//@   ensures[C03,C04,C17:result] err == nil ==> w != nil && istype(w, "*smtp.dataCloser") && as(w, "*smtp.dataCloser").c == c
+//@   ensures[C03,C04:open] err == nil ==> (!c.Text.ioerr ==> c.Text.indata && c.Text.txn == 3)
 //@   ensures[C03,C04:refused] err != nil ==> quiet(c.Text) && (live(c.Text) ==> c.Text.txn == 2)
 //@ func smtp.dataCloser.Close
 //@   requires[C03,C04:open] d != nil && d.c != nil && d.c.Text != nil && d.c.Text.greeted && (!d.c.Text.ioerr ==> d.c.Text.indata && d.c.Text.pending == 0 && d.c.Text.txn == 3)
